@@ -200,6 +200,45 @@ static bool mesh_clean(W &w) {
     return true;
 }
 
+// C01's quantifier, inherited by the reachable states of C16: no halfface is used by two live cells.  A history that
+// creates such a state (add_cell on an occupied halfface; the library documents it as a non-manifold configuration the
+// caller may intend) is outside the contract of the shape statements: the halfface -> cell incidence names one cell only,
+// delete_face misses the other one, and removing the face physically filters its halfface out of the survivor.
+static bool halfface_in_two_live_cells(W &w) {
+    auto &m = w.mesh;
+    std::set<int> owner;
+    for (int c = 0; c < (int)m.n_cells(); ++c) if (!m.is_deleted(CH(c))) for (auto hf : m.cell(CH(c)).halffaces())
+        if (hf.is_valid() && !owner.insert(hf.idx()).second) return true;
+    return false;
+}
+
+// a cell just accepted by a topology-checked add_cell (from halffaces or from eight vertices): exactly eight distinct
+// vertices (fix "checked hex add_cell must reject cells without eight distinct vertices"), and - when its six faces are
+// closed loops, i.e. valid faces - halffaces 2k / 2k+1 share no vertex (the x/y/z front and back of a hexahedron)
+static void oracle_checked_add(W &w, CH c, StepOut &out) {
+    auto &m = w.mesh;
+    const auto hfs = m.cell(c).halffaces();
+    auto fail = [&](const std::string &s) { out.fail("C16", "cell " + std::to_string(c.idx()) + ": " + s); };
+    std::set<int> vs;
+    bool loops = hfs.size() == 6;
+    for (auto hf : hfs) {
+        if (!hf.is_valid() || hf.idx() >= 2 * (int)m.n_faces()) return;          // judged elsewhere (invalid handle stored)
+        auto f = m.halfface(hf).halfedges();
+        for (size_t i = 0; i < f.size(); ++i) {
+            vs.insert(m.halfedge(f[i]).from_vertex().idx());
+            if (m.halfedge(f[i]).to_vertex() != m.halfedge(f[(i + 1) % f.size()]).from_vertex()) loops = false;
+        }
+    }
+    stat_event("checked_add_judged");
+    if (vs.size() != 8) { fail("accepted with topology check on " + std::to_string(vs.size()) + " distinct vertices (a hexahedron has exactly eight)"); return; }
+    if (!loops) return;
+    for (int k = 0; k < 3; ++k) {
+        auto a = hf_verts(w, hfs[2 * k]), b = hf_verts(w, hfs[2 * k + 1]);
+        for (int x : a) if (std::find(b.begin(), b.end(), x) != b.end()) {
+            fail("accepted with topology check but halffaces " + std::to_string(2 * k) + " and " + std::to_string(2 * k + 1) + " share the vertex " + std::to_string(x)); return; }
+    }
+}
+
 static void oracle_hex(W &w, StepOut &out, bool tainted_shape, bool all_layout) {
     auto &m = w.mesh;
     if (!tainted_shape) {
@@ -305,7 +344,14 @@ static void run_script(const std::vector<std::string> &lines) {
                 if (nm == "AddC" && toks.at(1) == "0") all_layout = false;
                 if (nm == "SwapF" || nm == "SwapE" || nm == "SwapV") { /* relabelings keep shape and layout */ }
                 if (nm == "Clear") { tainted = false; all_layout = true; }
-                if (orc && !r.rejected) { StepOut so; oracle_hex(w, so, tainted, all_layout); o << so.o.str(); }
+                if (halfface_in_two_live_cells(w)) { tainted = true; all_layout = false; }      // out of contract from here on (until Clear)
+                if (orc && !r.rejected) {
+                    StepOut so;
+                    bool checked_add = (nm == "AddC" || nm == "HAddCellV") && toks.size() > 1 && toks.at(1) == "1";
+                    if (checked_add && w.mesh.n_cells() > old_nc) oracle_checked_add(w, CH((int)w.mesh.n_cells() - 1), so);
+                    if (so.o.str().empty()) oracle_hex(w, so, tainted, all_layout);
+                    o << so.o.str();
+                }
             }
         } catch (Unresolvable &) {
             header(o, lineno, trim(line), "Unresolvable");
